@@ -129,6 +129,9 @@ func c15AddCase(out *emit.Out, scenario string, in c15Input) {
 	pos := 0
 	for i, p := range payloads {
 		want := len(perWrite[i])
+		if len(p) == 0 && in.API == "write" {
+			want = 0 // Read skips the empty record
+		}
 		var pieces [][]byte
 		for k := 0; k < want && pos < len(recvd); k++ {
 			pieces = append(pieces, recvd[pos])
